@@ -74,4 +74,14 @@ CHECKS = {
           "sort. The seconds-level statement about matrix_to_events (per-track dictionaries + global sort) is NOT yet a theorem: it is tied by "
           "model correspondence (2700 cases/run) and by the oracle. Tag-free notes, integer amplitudes, no 'x' placeholders.",
  },
+ "C12": {
+  "text": "Theorems in integer ticks for every score whose parts last their chord: get_melody_between never fails and lasts exactly the "
+          "overlap of the window with the melody for every position of the cut points; a chord window keeps all parts as long as the new chord; "
+          "the window [a,b) of a score lasts min(b,total)-a (general clock form covers every chord-boundary coincidence); cutting at t and "
+          "re-joining gives back the total duration; repeat_until_duration(d) lasts exactly d. The CONTENT clauses - sounding notes of the "
+          "window = the original ones starting in it, clipped and shifted, and re-joining reproduces the original sound - are evaluated on "
+          "the implementation by the oracle (render both sides with get_notes) and tied to the model by correspondence; they are not yet theorems.",
+  "note": "Trusted: Coq kernel; adapters and tick scaling of cut points. Partial: window content / re-join sound are oracle + correspondence "
+          "only. Relative notes whose reference is cut away are outside the window-content oracle (the statement cannot apply).",
+ },
 }
